@@ -108,6 +108,33 @@ impl ElemT for T0 {
     }
 }
 
+/// Zero-sized element with an alignment above 1: references to it must still be aligned (the bucket "pointer" of a
+/// zero-sized type encodes an index, the element pointer is a dangling aligned address).
+#[derive(Clone, Copy)]
+#[repr(align(64))]
+pub struct T0A;
+impl ElemT for T0A {
+    const TRACKED: bool = false;
+    fn make(_class: u32, _v: u32, _h: u64) -> Self {
+        T0A
+    }
+    fn class(&self) -> u32 {
+        // touch the reference: its address must honour the alignment
+        assert_eq!(self as *const T0A as usize % 64, 0, "misaligned reference to a zero-sized element");
+        0
+    }
+    fn id(&self) -> u32 {
+        0
+    }
+    fn v(&self) -> u32 {
+        0
+    }
+    fn set_v(&mut self, _v: u32) {}
+    fn h(&self) -> u64 {
+        env::plan_hash(0, 0)
+    }
+}
+
 pub type Table<E> = HashTable<E, CheckingAlloc>;
 
 /// The caller-supplied hasher closure: returns the element's hash; counted and fault-injectable.
